@@ -154,8 +154,13 @@ func c14ProcessEvent(c *Ctx, pe *ssa.Function) {
 		return
 	}
 	// classify the lists by the facts at the appends that feed them
+	flows := map[*ssa.Function]*Flow{pe: fl}
+	lfs := map[*ssa.Function]map[ssa.Instruction]lockState{pe: lf}
 	classify := func(list ssa.Value) (prio, ord, locked, live, mode bool, n int) {
 		prio, ord, locked, live, mode = true, true, true, true, true
+		// the lists may be built by a private helper of the package that returns them
+		sliceEnterHelpers = funcPkgPath(pe)
+		defer func() { sliceEnterHelpers = "" }()
 		backwardSlice(list, func(v ssa.Value) bool {
 			call, ok := v.(*ssa.Call)
 			if !ok {
@@ -166,6 +171,24 @@ func c14ProcessEvent(c *Ctx, pe *ssa.Function) {
 				return false
 			}
 			n++
+			owner := call.Parent()
+			if flows[owner] == nil {
+				flows[owner] = NewFlow(p, owner)
+				lfs[owner] = lockFlow(owner, lockState{})
+			}
+			fl, lf := flows[owner], lfs[owner]
+			// the mode parameter in the owner's terms: the parameter that receives processEvent's runningInAddEvent
+			modeKey := "p2"
+			if owner != pe {
+				modeKey = ""
+				for _, s := range callsIn(pe, false, func(cc *ssa.CallCommon) bool { return calleeIs(cc, owner) }) {
+					for i, a := range s.Common().Args {
+						if flows[pe].K.Key(a) == "p2" {
+							modeKey = "p" + itoa(i)
+						}
+					}
+				}
+			}
 			facts := fl.At(call)
 			isPrio := trueOf(facts, func(k string) bool { return strings.HasSuffix(k, "handlerOpts.priority") })
 			isOrd := falseOf(facts, func(k string) bool { return strings.HasSuffix(k, "handlerOpts.priority") })
@@ -173,7 +196,7 @@ func c14ProcessEvent(c *Ctx, pe *ssa.Function) {
 			ord = ord && isOrd
 			locked = locked && lf[call][kEL+"mut"] == lockW
 			live = live && notNilOf(facts, func(k string) bool { return strings.HasSuffix(k, "handler.callback") })
-			mode = mode && hasCmp(facts, "==", func(k string) bool { return strings.HasSuffix(k, "handlerOpts.runInAddEvent") }, is("p2"))
+			mode = mode && modeKey != "" && hasCmp(facts, "==", func(k string) bool { return strings.HasSuffix(k, "handlerOpts.runInAddEvent") }, is(modeKey))
 			// the appended element is that handler's callback
 			return false
 		})
@@ -478,7 +501,17 @@ func c14QueueTables(c *Ctx) {
 		if err != nil {
 			c.Undecided("C14.7", "queue.pop", p.FuncPos(pop), err.Error())
 		} else {
-			atoms := []string{"c:-1 == head", "head == tail", "cap == head"}
+			// the wrap test: written on the incremented field (head++; if head == cap) or on the value
+			// about to be stored (if head+1 == cap), e.g. in a helper that computes the next index
+			wrapAtom := "cap == head"
+			for _, d := range paths {
+				for _, l := range d.Lits {
+					if l.Atom == "(head + c:1) == cap" {
+						wrapAtom = l.Atom
+					}
+				}
+			}
+			atoms := []string{"c:-1 == head", "head == tail", wrapAtom}
 			n, diff := compareTable(paths, atoms, func(v func(string) bool) outcome {
 				o := outcome{"nil", map[string]string{}}
 				if v("c:-1 == head") {
@@ -488,7 +521,7 @@ func c14QueueTables(c *Ctx) {
 				if v("head == tail") {
 					o.Stores[kQueue+"head"] = "c:-1"
 					o.Stores[kQueue+"tail"] = "c:-1"
-				} else if v("cap == head") {
+				} else if v(wrapAtom) {
 					o.Stores[kQueue+"head"] = "c:0"
 				} else {
 					o.Stores[kQueue+"head"] = "(head + c:1)"
@@ -581,7 +614,7 @@ func c14QueueTables(c *Ctx) {
 		return
 	}
 	fl := NewFlow(p, push)
-	var pos *ssa.Phi
+	var posV ssa.Value
 	var bad []string
 	nStoreEntry, nStoreTail := 0, 0
 	eachInstr(push, func(in ssa.Instruction) {
@@ -591,27 +624,57 @@ func c14QueueTables(c *Ctx) {
 		}
 		if ia, ok := st.Addr.(*ssa.IndexAddr); ok && strings.HasSuffix(fl.K.Key(ia.X), kQueue+"entries") && fl.K.Key(st.Val) == "p1" {
 			nStoreEntry++
-			pos, _ = ia.Index.(*ssa.Phi)
+			posV = ia.Index
 		}
 	})
-	if pos == nil || nStoreEntry != 1 {
-		c.Undecided("C14.7", "queue.push", p.FuncPos(push), "the slot written with the new entry is not a single phi-indexed store")
+	// nextOf: v is "the index after base": base+1, or 0 exactly when base+1 == cap. Written as a phi
+	// over the wrap test, or as a call of a pure helper of the package that computes exactly that.
+	nextOf := func(v ssa.Value, base string) string {
+		isCapCmp := func(fs FactSet, op string) bool {
+			return hasCmp(fs, op, func(k string) bool { return ab(k) == "("+base+" + c:1)" }, func(k string) bool { return strings.HasPrefix(ab(k), "cap") })
+		}
+		switch x := v.(type) {
+		case *ssa.Phi:
+			for i, e := range x.Edges {
+				ek := ab(fl.K.Key(e))
+				ef := fl.AtEdge(x.Block().Preds[i], x.Block())
+				switch {
+				case ek == "c:0" && isCapCmp(ef, "=="):
+				case ek == "("+base+" + c:1)" && isCapCmp(ef, "!="):
+				default:
+					return "index may be " + ek + " (wrap test ==:" + boolStr(isCapCmp(ef, "==")) + " !=:" + boolStr(isCapCmp(ef, "!=")) + ")"
+				}
+			}
+			return ""
+		case *ssa.Call:
+			alts, ok := helperValues(fl, x, func(y ssa.Value) ssa.Value { return y })
+			if !ok || len(alts) != 2 {
+				return "index is " + ab(fl.K.Key(v)) + ", not recognised as the next index"
+			}
+			for _, a := range alts {
+				fs := FactSet{}
+				for _, f := range a.facts {
+					fs[f] = true
+				}
+				switch {
+				case ab(a.result) == "c:0" && isCapCmp(fs, "=="):
+				case ab(a.result) == "("+base+" + c:1)" && isCapCmp(fs, "!="):
+				default:
+					return "helper may return " + ab(a.result)
+				}
+			}
+			return ""
+		}
+		return "index is " + ab(fl.K.Key(v)) + ", not recognised as the next index"
+	}
+	if posV == nil || nStoreEntry != 1 {
+		c.Undecided("C14.7", "queue.push", p.FuncPos(push), "the slot written with the new entry is not a single store")
 		return
 	}
-	pk := fl.K.Key(pos)
+	pk := fl.K.Key(posV)
 	// pos = tail+1, or 0 exactly when tail+1 == cap
-	for i, e := range pos.Edges {
-		pred := pos.Block().Preds[i]
-		ek := ab(fl.K.Key(e))
-		ef := fl.AtEdge(pred, pos.Block())
-		wrapFact := hasCmp(ef, "==", func(k string) bool { return ab(k) == "(tail + c:1)" }, func(k string) bool { return strings.HasPrefix(ab(k), "cap") })
-		noWrapFact := hasCmp(ef, "!=", func(k string) bool { return ab(k) == "(tail + c:1)" }, func(k string) bool { return strings.HasPrefix(ab(k), "cap") })
-		switch {
-		case ek == "c:0" && wrapFact:
-		case ek == "(tail + c:1)" && noWrapFact:
-		default:
-			bad = append(bad, "slot index may be "+ek+" (wrap test: ==:"+boolStr(wrapFact)+" !=:"+boolStr(noWrapFact)+")")
-		}
+	if r := nextOf(posV, "tail"); r != "" {
+		bad = append(bad, "slot "+r)
 	}
 	eachInstr(push, func(in ssa.Instruction) {
 		st, ok := in.(*ssa.Store)
@@ -646,6 +709,13 @@ func c14QueueTables(c *Ctx) {
 					bad = append(bad, "head wrapped to 0 without head == cap")
 				}
 			default:
+				// head := next(head) in one step
+				if _, isCall := st.Val.(*ssa.Call); isCall && nextOf(st.Val, "head") == "" {
+					if !hasCmp(facts, "==", is(pk), func(k string) bool { return ab(k) == "head" }) {
+						bad = append(bad, "head advanced although the new slot is not the head (no overflow)")
+					}
+					break
+				}
 				bad = append(bad, "unexpected head := "+val)
 			}
 		}
